@@ -18,6 +18,9 @@ FORBIDDEN_METHODS = {"unprotect", "remove", "rm", "rmdir", "rmtree", "unlink", "
 
 
 def check(ck: Checker) -> None:
+    from .generic_lints import run_all as _lints_
+
+    _lints_(ck, "C10.aliasing", "hashfile.checkout")
     ck.decided = [
         "C10.cacheimmutable: a cache object path (cache.oid_to_path(...)) flows only into link sources, protect and read-only queries - never into removal, unprotect, chmod or a copy destination",
         "C10.reprotect: after relinking, the cache object is protected again on every normal path",
